@@ -46,7 +46,9 @@ type scenario struct {
 	WriteMs    int    `json:"write_timeout_ms"`
 	OneWay     bool   `json:"one_way"`
 	Proto      string `json:"proto"`
-	QueueMax   int    `json:"obj_queue_max"` // > 0: the proxy's bound on calls in flight (calls beyond it are refused at once)
+	QueueMax   int    `json:"obj_queue_max"`  // > 0: the proxy's bound on calls in flight (calls beyond it are refused at once)
+	KeepAlive  bool   `json:"keep_alive"`     // push callback registered, 400 ms idle timeout: one-way pings every 200 ms
+	ReadZero   bool   `json:"read_timeout_0"` // ClientReadTimeout = 0: replies cannot be handed over, calls end at their deadline
 }
 
 // peer is a fault-script peer that can be turned healthy.
@@ -275,7 +277,18 @@ func newClient(sc scenario, addr string) *rpcw.Client {
 	} else {
 		o.InvokeTimeoutMs = 30000 // must be overridden by the per-call source
 	}
-	return rpcw.NewDirect([]string{addr}, o)
+	if sc.KeepAlive {
+		o.IdleTimeout = 400 * time.Millisecond
+	}
+	cl := rpcw.NewDirect([]string{addr}, o)
+	if sc.KeepAlive {
+		cl.App.ClientConfig().KeepAliveInterval = 0
+		cl.SP.SetPushCallback(func([]byte) {})
+	}
+	if sc.ReadZero {
+		cl.App.ClientConfig().ClientReadTimeout = 0
+	}
+	return cl
 }
 
 func bound(sc scenario) time.Duration {
@@ -369,6 +382,12 @@ func runScenario(sc scenario) {
 	if !ok {
 		run.Violation("resources-left-behind", sc.Fault+":"+map[bool]string{true: "oneway", false: "twoway"}[sc.OneWay], fmt.Sprintf("after all calls returned: in-flight counter %d (before %d), pending-reply entries %d (before %d), manager counter %d (before %d); scenario %+v",
 			cl.SP.VerifQueueLen(), q0, cl.SP.VerifPendingReplies(), p0, cl.SP.VerifInvokeNum(), i0, sc), wit(map[string]interface{}{"outcomes": classes}))
+		return
+	}
+	if sc.ReadZero {
+		// replies cannot reach their callers in this configuration: no control batch
+		run.Eval(int64(sc.Callers * sc.PerCaller))
+		run.Distinct(fmt.Sprintf("readzero|%s|%s", sc.Fault, sc.Source))
 		return
 	}
 	if sc.Proto == "ssl" {
@@ -521,6 +540,24 @@ func main() {
 		scs = append(scs, scenario{ID: id, Fault: "blackhole", Source: src, DeadlineMs: []int{100, 300, 600}[si], Callers: 24, PerCaller: 1, DialMs: 300, WriteMs: 500})
 		id++
 		scs = append(scs, scenario{ID: id, Fault: "accept-then-silence", Source: src, DeadlineMs: []int{100, 300, 600}[(si+1)%3], Callers: 24, PerCaller: 1, DialMs: 300, WriteMs: 500, Proto: "ssl"})
+	}
+	// the dial bound is the configured dial timeout, not some other timeout that happens to have the same default
+	for si, src := range sources {
+		id++
+		scs = append(scs, scenario{ID: id, Fault: "blackhole", Source: src, DeadlineMs: []int{100, 300, 600}[si], Callers: 1, PerCaller: 2, DialMs: 300, WriteMs: 4000})
+	}
+	// keep-alive pings (push callback registered) that cannot be sent must not stay counted as in flight
+	for si, src := range sources {
+		for _, f := range []string{"refuse", "close-before-read"} {
+			id++
+			scs = append(scs, scenario{ID: id, Fault: f, Source: src, DeadlineMs: []int{300, 600, 100}[si], Callers: 2, PerCaller: 3, DialMs: 300, WriteMs: 500, KeepAlive: true})
+		}
+	}
+	// a boundary configuration: with a read timeout of 0 a reply cannot be handed to its caller; every
+	// call must still end at its deadline, the first one and all that follow
+	for _, src := range sources {
+		id++
+		scs = append(scs, scenario{ID: id, Fault: "late-0.5", Source: src, DeadlineMs: 300, Callers: 1, PerCaller: 4, DialMs: 300, WriteMs: 500, ReadZero: true})
 	}
 	// a small bound on calls in flight: the calls refused at once must not stay counted
 	for si, src := range sources {
